@@ -301,9 +301,12 @@ def _main(prop, args, seed, t0):
     # 2. correspondence -------------------------------------------------------
     eff_tier = "thorough" if broken else tier  # widen the search when a proof broke
     drift_changed, drift_missing = [], []
-    anchors = getattr(mod, "ANCHORS", None)
-    if anchors and os.environ.get("VERIF_NO_DRIFT") != "1":
+    anchors = list(getattr(mod, "ANCHORS", None) or [])
+    if os.environ.get("VERIF_NO_DRIFT") != "1":
         from harness import drift
+        # the modelled functions the module names, plus every file the property is anchored in (properties.jsonl): ANY
+        # change of the code the property speaks about is met with the thorough-size comparison (advisory, no verdict)
+        anchors = anchors + drift.file_anchors(prop)
         drift_changed, drift_missing = drift.drifted(prop, anchors)
         if drift_changed or drift_missing:
             # advisory only: a modelled function was rewritten -> deepest comparison
